@@ -86,6 +86,20 @@ fn with_env(lam_cnt: usize, env: Env, term: Term<NamedDeBruijn>) -> Term<NamedDe
 
             Term::Force(force.into())
         }
+        Term::Constr { tag, fields } => Term::Constr {
+            tag,
+            fields: fields
+                .into_iter()
+                .map(|field| with_env(lam_cnt, env.clone(), field))
+                .collect(),
+        },
+        Term::Case { constr, branches } => Term::Case {
+            constr: with_env(lam_cnt, env.clone(), constr.as_ref().clone()).into(),
+            branches: branches
+                .into_iter()
+                .map(|branch| with_env(lam_cnt, env.clone(), branch))
+                .collect(),
+        },
         rest => rest,
     }
 }
